@@ -509,6 +509,10 @@ impl Scenario for C13 {
                 b.push(Step::Offer { text: TextRef::Lit { text: ta.clone() }, faults: vec![], reader: *bk, artifact, expect: Some(true), why: "C13:any-33-bytes".into() });
                 b.push(Step::IdRel { reader: *bk, a: TextRef::Lit { text: ta.clone() }, b: TextRef::Lit { text: tc } });
                 b.push(Step::IdRel { reader: *bk, a: TextRef::Lit { text: ta.clone() }, b: TextRef::Lit { text: ta.clone() } });
+                // the version tag absent, or more than once
+                for f2 in [vec![TokFault::TextRemoveRange { at: 0, n: 2 }], vec![TokFault::TextDupRange { at: 0, n: 2 }], vec![TokFault::TextDupRange { at: 0, n: 2 }, TokFault::TextDupRange { at: 0, n: 2 }], vec![TokFault::TextRemoveRange { at: 0, n: 3 }], vec![TokFault::TextDupRange { at: 2, n: 5 }], vec![TokFault::TextRemoveRange { at: 2, n: 5 }]] {
+                    b.push(Step::Offer { text: TextRef::Lit { text: ta.clone() }, faults: f2, reader: *bk, artifact, expect: Some(false), why: "C13:id-wrong-length-accepted:header absent or repeated".into() });
+                }
                 // multi-byte characters written over the text so that its byte length stays 51
                 let tlen = ta.chars().count();
                 for at in (0..12).chain(tlen.saturating_sub(6)..tlen) {
@@ -1042,6 +1046,9 @@ impl Scenario for C09 {
                 offer(&mut b, t, vec![TokFault::TextInsert { at: usize::MAX, ch }, TokFault::TextInsert { at: usize::MAX, ch }]);
             }
             offer(&mut b, t, vec![TokFault::TextStdAlphabet]);
+            for nth in 0..12 {
+                offer(&mut b, t, vec![TokFault::TextStdAlphabetAt { nth }]);
+            }
             for which in 0..2u8 {
                 for bits in 1..16u8 {
                     offer(&mut b, t, vec![TokFault::TextTrailingBits { which, bits }]);
